@@ -74,6 +74,9 @@ def case(draw):
     else:
         children = [draw(child(profile, common)) for _ in range(n)]
     D = st.one_of(st.just(0), st.integers(0, 1000), st.floats(1e-6, 1e9), st.floats(1e-6, 10))
+    if profile != "tiny":
+        # integers that no float represents exactly: the composite must read back the very value ("exactly D")
+        D = st.one_of(D, D, D, D, st.integers(2**53 + 1, 2**62).filter(lambda v: float(v) != v))
     if profile == "tiny":
         D = st.one_of(D, st.sampled_from([1e12, 1e15, 3e14]))  # large demands over tiny weights: D/W alone would overflow, D*w/W does not
     op = st.one_of(
